@@ -645,3 +645,58 @@ reg(Prop("C08", "Search is reproducible and never overspends its node budget",
                       "C08_soft_hard is proved for the decision layer under the stated oracle hypotheses (a call within the budget answers as "
                       "without one; every root call counts at least one node); that alphaBeta satisfies them is Layer A + observation"],
          design_ref="5/C08"))
+
+# ------------------------------------------------------------------------------------------------
+# C10
+
+def _c10_classify(w):
+    """Only the recorded class: the judge's clause 2 (root FEN carries an en-passant square without a
+    legal en-passant capture, the miscounted ply has the ROOT's key, and the reported count is the true
+    count with the root left out), and only while KNOWN_FINDINGS.txt lists it."""
+    if w.get("verdict", "").split()[:2] != ["0", "2"]:
+        return None
+    known, _ = V.known_findings()
+    for k in known:
+        if k.get("property") == "C10" and k.get("id") == "fen-ep-flag":
+            return "id=fen-ep-flag"
+    return None
+
+
+def _c10_extra(prop, res, workdir):
+    """Evidence notes: hash collisions measured by the generator (two different position keys with
+    one Zobrist hash), and what the judge clauses mean."""
+    try:
+        stats = json.load(open(os.path.join(workdir, "c10.stats.json")))
+    except OSError:
+        return
+    tags = stats.get("tags", {})
+    res.notes.append(
+        f"hash collisions (two different position keys, one Zobrist hash) measured over all positions of this run: "
+        f"{tags.get('HASH-COLLISION', 0)} histories affected, {tags.get('no-hash-collision', 0)} histories free of them "
+        "(a collision is not a violation by itself; it is the named hypothesis no_collision of C10_true)")
+    res.notes.append(
+        "trusted links of C10_true (explicit premises, Spec/RepLinks.v): step_link (C03/C04 + C02 in one statement: one MakeMove "
+        "with a legal move on a board that represents position p up to the two clocks keeps Rep, leaves calculateHash of the "
+        "new board as newest history entry, and the new board represents succ_spec p m - the en-passant square recorded iff a "
+        "capture is legal), valid_link (valid_step), no_collision (64-bit hashing cannot be injective), normal_ep of the root "
+        "(finding fen-ep-flag, C10_fen_ep_refuted)")
+    res.notes.append(
+        "finding fen-ep-flag also contradicts the transposition corollary of C04 when one of the two move orders is "
+        "empty: root (hash with en-passant file) vs. a shuffle returning to the same position (hash without)")
+
+
+reg(Prop("C10", "Repetition count equals true recurrences of the position in the game", "Properties/C10.v",
+         [StreamCfg("c10", int(os.environ.get("VERIF_C10_N", "63")), 8000, judge="judge_c10",
+                    rule="game histories of up to 400 plies (scripted knight/king/rook oscillations incl. castling rights "
+                         "lost inside a cycle and en-passant rights that arise and lapse, capturable and pinned; random "
+                         "play-outs with a 20-50 % undo bias; random prefixes followed by cycles of 4, 6 and 8 plies "
+                         "interleaved with irreversible moves; roots carrying an en-passant square), each observed after "
+                         "EVERY ply through MakeMove and through consecutive UCI position commands, plus a FEN reload in "
+                         "the middle; non-trivial = some position of the history occurs at least twice; distinct by input")],
+         trusted=["hooks uci/export_verif.go (VerifBoard, VerifParseUCIMove) and board/export_verif.go (snapshot/restore)",
+                  "in-process uci.Driver fed through a pipe and synchronised with isready/readyok; search replaced by a stub",
+                  "named premises of C10_true: step_link (C03/C04 + C02), valid_link (valid_step), no_collision, "
+                  "normal_ep of the root (see notes)"],
+         assumptions=["no_collision: different position keys of one history have different Zobrist hashes (measured every run)",
+                      "the root does not carry an en-passant square without a legal en-passant capture (known finding fen-ep-flag)"],
+         extra=_c10_extra, classify=_c10_classify, design_ref="5/C10"))
